@@ -15,7 +15,7 @@ import (
 
 func init() {
 	register(&Prop{ID: "C03", Run: runC03, MinNontrivial: 500,
-		Rule:        "cases = a conforming record with 0-3 injected faults from {Version 1.1/empty/absent; Destination other/near-miss/empty/absent; Response Issuer absent/other/empty; assertion Issuer same three; Status absent, StatusCode absent, non-Success, Success only at second level; zero assertions; Subject / SubjectConfirmation / SubjectConfirmationData absent; method holder-of-key / sender-vouches / empty; Recipient absent/other/near-miss; NotOnOrAfter absent/malformed/past}, 1-4 assertions with the fault in position k, then signed by the IdP (Response, assertions or both) or presented to a skip-signature SP, IdP issuer configured or empty; plus direct Validate(*types.Response) calls on hand-built structs and a multi-SubjectConfirmation class (implication only); oracle: reference validator over the record -> set V of typed errors; accept iff V empty; a rejection's type+key is a member of V (wrapped in ErrVerification through RetrieveAssertionInfo); non-trivial = signature processing passed and the profile logic decided; distinct by parameter tuple; SP clocks off the whole second with bounds inside the current second; configured ACS / issuer values containing list, glob and URL metacharacters; near-miss values (trimmed, case-folded, percent- or entity-encoded once more, cut at ?/#, list pieces, other configured fields) for Destination, Recipient and both Issuers; unreadable unchecked timestamps in an earlier assertion; an accepted Response returns as many assertions as it carries",
+		Rule:        "cases = a conforming record with 0-3 injected faults from {Version 1.1/empty/absent; Destination other/near-miss/empty/absent; Response Issuer absent/other/empty; assertion Issuer same three; Status absent, StatusCode absent, non-Success, Success only at second level; zero assertions; Subject / SubjectConfirmation / SubjectConfirmationData absent; method holder-of-key / sender-vouches / empty; Recipient absent/other/near-miss; NotOnOrAfter absent/malformed/past}, 1-4 assertions with the fault in position k, then signed by the IdP (Response, assertions or both) or presented to a skip-signature SP, IdP issuer configured or empty; plus direct Validate(*types.Response) calls on hand-built structs and a multi-SubjectConfirmation class (implication only); oracle: reference validator over the record -> set V of typed errors; accept iff V empty; a rejection's type+key is a member of V (wrapped in ErrVerification through RetrieveAssertionInfo); non-trivial = signature processing passed and the profile logic decided; distinct by parameter tuple; SP clocks off the whole second with bounds inside the current second; configured ACS / issuer values containing list, glob and URL metacharacters; near-miss values (trimmed, case-folded, percent- or entity-encoded once more, cut at ?/#, list pieces, other configured fields) for Destination, Recipient and both Issuers; unreadable unchecked timestamps in an earlier assertion; an accepted Response returns as many assertions as it carries; Version values that are other spellings of the number 2.0; Issuer elements carrying any Format attribute",
 		Assumptions: []string{"check order is not promised: any member of V is an acceptable rejection", "with several SubjectConfirmations only 'accepted => a valid bearer confirmation exists' is asserted (encoding/xml merges repeated singleton children)"}})
 }
 
@@ -87,7 +87,7 @@ func ssoChecks(rec *sim.Response, now time.Time, cfgIssuer string) map[string]bo
 	return V
 }
 
-var c03Faults = []string{"dest-nearmiss", "recipient-nearmiss", "issuer-nearmiss", "a-issuer-nearmiss", "dest-nearmiss", "recipient-nearmiss", "version-1.1", "version-empty", "version-absent", "dest-other", "dest-nearmiss", "dest-empty", "dest-absent",
+var c03Faults = []string{"dest-nearmiss", "recipient-nearmiss", "issuer-nearmiss", "a-issuer-nearmiss", "dest-nearmiss", "recipient-nearmiss", "version-1.1", "version-empty", "version-absent", "version-nearmiss", "version-nearmiss", "dest-other", "dest-nearmiss", "dest-empty", "dest-absent",
 	"issuer-absent", "issuer-other", "issuer-empty", "a-issuer-absent", "a-issuer-other", "a-issuer-empty",
 	"status-absent", "statuscode-absent", "status-requester", "status-second-level", "zero-assertions",
 	"issuer-suffix-after-pi", "a-issuer-suffix-after-pi", "second-status-bad",
@@ -113,6 +113,8 @@ func injectSSOFault(r *rand.Rand, rec *sim.Response, now time.Time, f string) st
 		rec.Version = sim.S("1.1")
 	case "version-empty":
 		rec.Version = sim.S("")
+	case "version-nearmiss":
+		rec.Version = sim.S(NearVersion(r))
 	case "version-absent":
 		rec.Version = nil
 	case "dest-other":
@@ -244,6 +246,17 @@ func runC03(c *mon.Ctx) {
 		for i := 0; i < nf; i++ {
 			faults = append(faults, injectSSOFault(r, rec, now, c03Faults[(k+i*7)%len(c03Faults)]))
 		}
+		if r.IntN(3) == 0 {
+			// Issuer elements carrying a Format attribute (any of them): the value is compared all the same
+			if rec.Issuer != nil && r.IntN(3) != 0 {
+				rec.IssuerFormat = sim.S(pick(r, IssuerFormats))
+			}
+			for _, a := range rec.Assertions {
+				if a.Issuer != nil && r.IntN(3) != 0 {
+					a.IssuerFormat = sim.S(pick(r, IssuerFormats))
+				}
+			}
+		}
 		oddStamp := ""
 		if na > 1 && len(rec.Assertions) == na && r.IntN(10) == 0 {
 			// a timestamp no check looks at (IssueInstant, AuthnInstant, SessionNotOnOrAfter) is unreadable in one
@@ -301,6 +314,9 @@ func runC03(c *mon.Ctx) {
 		sp.AssertionConsumerServiceURL = c03ACS
 		sp.IdentityProviderIssuer = cfgIssuer
 		sp.SkipSignatureValidation = mode == "skip"
+		if r.IntN(8) == 0 {
+			cs.Note("before validating: %s", OtherUse(r, sp))
+		}
 		enc := sim.Encode(doc, sim.RawLevel)
 		V := ssoChecks(rec, now, cfgIssuer)
 		var verr, aerr error
